@@ -71,6 +71,8 @@ pub struct Parsed {
     pub entries: BTreeMap<Pat, Vec<(String, i64)>>,
     /// entries that precede every section
     pub orphans: Vec<(String, i64)>,
+    /// list items that name a file of the findings map but carry no line number ("- Empty.sol:")
+    pub lineless: Vec<String>,
     /// (position, number) of every "Total <word> <n>" outside section texts, with the word
     pub totals: Vec<(usize, String, i64)>,
     /// (position, severity word) of heading lines outside section texts containing High / Medium / Low
@@ -141,6 +143,14 @@ pub fn parse_report_names(rep: &str, tb: &Tables, names: &[String]) -> Parsed {
                         }
                         None => p.orphans.push((name, n)),
                     }
+                    continue;
+                }
+            }
+        }
+        if let Some(rest) = l.strip_prefix("- ") {
+            if let Some(name) = rest.trim_end().strip_suffix(':') {
+                if names.iter().any(|n| !n.is_empty() && n == name) {
+                    p.lineless.push(l.to_string());
                     continue;
                 }
             }
@@ -239,6 +249,9 @@ fn check_report(rep: &str, m: &Maps, tb: &Tables, via: &str, c11: bool, out: &mu
         let mut got = p.entries.clone();
         for v in got.values_mut() {
             v.sort();
+        }
+        if !p.lineless.is_empty() {
+            push(format!("{}:entry-without-line", via), "every list item that names a file of the findings carries one of its lines".into(), format!("{:?}", p.lineless));
         }
         if !p.orphans.is_empty() {
             push(format!("{}:entry-before-any-section", via), "every entry follows the section of its pattern".into(), format!("{:?}", p.orphans));
